@@ -53,6 +53,14 @@ PLeafTable(P, mn, path) ==
           ELSE {<<Append(path, inst.n), inst.of.ref>>}
         : inst \in PRange(m.insts) }
 
+(* parameter values of the leaf instances that carry a `pv` field (projected as <<name, integer>> pairs) *)
+RECURSIVE PLeafParams(_, _, _)
+PLeafParams(P, mn, path) ==
+  LET m == P.mods[mn] IN
+  UNION { IF inst.of.k = "mod" THEN PLeafParams(P, inst.of.ref, Append(path, inst.n))
+          ELSE IF "pv" \in DOMAIN inst THEN {<<Append(path, inst.n), {<<inst.pv[j][1], inst.pv[j][2]>> : j \in 1..Len(inst.pv)}>>} ELSE {}
+        : inst \in PRange(m.insts) }
+
 (* ---------------- C06: closure and self-consistency ---------------- *)
 (* P additionally carries  exts : Seq([name, domain, ports : Seq([n, w])])  - the declared external modules, and every
    instance reference carries `domain` ("" for local references). *)
